@@ -147,6 +147,7 @@ def special_values():
                   list(range(40)), {str(i): i for i in range(30)}, b"\x00" * 300, "é" * 200,
                   "\ud800", "\udbff", "\udc00", "\udc80", "a\udcffb", "\udfff", ["\udc80"], {"\udcfe": 1}, ("x", "\udc81"),
                   "\ufeff", "\ufeffabc", {"\ufeffk": 1, "k": 2}, ["\ufeff\ufeff"], "\ufffe", "\x00\ufeff",
+                  b"x" * 70000, [b"z" * 65537, b"w" * 65536],
                   float("nan"), [float("nan")], (float("inf"), -0.0), complex(float("nan"), -0.0)]
 
 
